@@ -244,6 +244,10 @@ func monitor(c hxlib.Case, outs []string) (vs []hxlib.Violation) {
 		}
 		of := strings.Fields(o)
 		switch f[0] {
+		case "cfgpush":
+			if sig, what := monitorCfg(l, o); sig != "" {
+				add(i, sig, what)
+			}
 		case "db":
 			kind = f[1]
 		case "q":
